@@ -100,14 +100,14 @@ def run_C01(ctx):
         ("rel", "P3r", "S0", 4 if q else 5, pr, {}),
         ("rel", "P1", "S1", 4 if q else 6, pr, {}), ("rel", "P1", "S2", 4 if q else 6, pr, {}), ("rel", "P1", "S3", 4 if q else 6, pr, {}), ("rel", "P1", "S4", 4 if q else 6, pr, {}),
         ("rel", "P7t", "S0", 4 if q else 6, pr, {}), ("rel", "P4h", "S0", 4 if q else 6, pr, {}), ("rel", "P4d", "S0", 5 if q else 7, pr, {}), ("rel", "P4d", "S6", 5 if q else 7, pr, {}),
-        ("rel", "P2", "S9", 3 if q else 4, [], {}),
+        ("rel", "P2", "S9", 3 if q else 4, [], {}), ("rel", "P8f", "S10", 4 if q else 5, pr, {}), ("dbg", "P8f", "S10", 3 if q else 4, pr, {}),
         ("dbg", "P1", "S0", 4 if q else 6, pr, {}), ("sec", "P1", "S0", 4 if q else 6, pr, {}),
         ("dbg", "P2", "S0", 3 if q else 4, pr, {}), ("sec", "P3r", "S0", 3 if q else 4, pr, {}),
     ]
     grid = [("rel", "entry", not q, {}), ("rel", "align", False, {}), ("dbg", "entry", False, {}), ("sec", "entry", False, {}),
             ("rel", "fillpage", False, {}), ("sec", "fillpage", False, {}), ("dbg", "fillpage", False, {})]
     return mixed_property(ctx, plan, grid,
-        rule="P2 from S9: a 4 GiB arena whose first block holds a live segment and whose blocks 1..63 are taken, so that new segments get arena block indices >= 64 (second bitmap field). fillpage: for every size class up to 1 KiB and seven consecutive pages of it, the page is filled to its very last block while the next slice holds the page of a larger class (first block at the start of the slice); every block is checked against all live ones. inputs: every allocation entry point (30) x boundary size grid x release variant, and the (size, alignment, offset) grid of C03, in carried-over heap states; histories: all sequences of operations of each profile alphabet (P1 page life-cycle {malloc 8K/48, fill, free(i), collect}, P2 spans {64K,100K,1M,17M,40M}, P3 small, P3r realloc, P7t threads, P4h heaps) up to depth D from start states S0..S4; node oracle: every live block's whole usable range holds its pattern, new blocks are disjoint from live ones, aligned, inside accessible memory.",
+        rule="P8f from S10: a segment filled to its end with 1 MiB pages; release / re-use / collect / clock ticks at its far end (last field of the commit and purge masks). P2 from S9: a 4 GiB arena whose first block holds a live segment and whose blocks 1..63 are taken, so that new segments get arena block indices >= 64 (second bitmap field). fillpage: for every size class up to 1 KiB and seven consecutive pages of it, the page is filled to its very last block while the next slice holds the page of a larger class (first block at the start of the slice); every block is checked against all live ones. inputs: every allocation entry point (30) x boundary size grid x release variant, and the (size, alignment, offset) grid of C03, in carried-over heap states; histories: all sequences of operations of each profile alphabet (P1 page life-cycle {malloc 8K/48, fill, free(i), collect}, P2 spans {64K,100K,1M,17M,40M}, P3 small, P3r realloc, P7t threads, P4h heaps) up to depth D from start states S0..S4; node oracle: every live block's whole usable range holds its pattern, new blocks are disjoint from live ones, aligned, inside accessible memory.",
         assumptions=COMMON_ASSUME + ["free(i) is enumerated for all i while at most `free_window` blocks are live, else for the first and last window/2"])
 
 # ------------------------------------------------------------------------------------------------
@@ -161,7 +161,7 @@ def run_C04(ctx):
 def run_C05(ctx):
     q = ctx.quick
     grid = [("rel", "realloc", not q, {}), ("sec", "realloc", False, {}), ("dbg", "realloc", False, {})]
-    seq = [("rel", "P3r", "S0", 4 if q else 6, [] if q else ["--prune"], {}), ("rel", "P3r", "S1", 3 if q else 5, [], {}),
+    seq = [("rel", "P3r", "S0", 4 if q else 6, [] if q else ["--prune"], {}), ("rel", "P3r", "S1", 3 if q else 4, [], {}),
            ("rel", "P5m", "S7", 3 if q else 5, [] if q else ["--prune"], {}), ("rel", "P5m", "S0", 4 if q else 6, [] if q else ["--prune"], {})]
     return mixed_property(ctx, seq, grid,
         rule="all ordered (old,new) pairs over the boundary size grid x 12 realloc-family variants (quick: mi_realloc on all pairs, the others on 1/6 of them); per case: result non-NULL, usable>=new, first min(old,new) bytes equal, grown part of zero-tracked blocks zero, heap-walk block count unchanged (old released iff pointer changed), new block reported live, mi_expand only within usable; every 7th case additionally a failing call (size > PTRDIFF_MAX / overflowing count) leaves the block live and intact, mi_reallocf frees it; plus P3r sequences.",
@@ -242,6 +242,11 @@ def run_C13(ctx):
         variant = ("rel", "dbg", "sec")[k % 3]
         plan.append((variant, "P8o", "S0", 4 if q else 5, ["--observe", "monitor,walk"], env))
         if not q or k % 3 == 0: plan.append(("rel" if variant != "rel" else "dbg", "P7t", "S0", 3 if q else 4, ["--observe", "monitor"], env))
+    # huge blocks spanning several arena blocks (claims that mix committed and never committed blocks), and a segment filled to its end
+    for env in ({"MIMALLOC_ARENA_EAGER_COMMIT": "0"}, LAZY, {}, {"MIMALLOC_ARENA_EAGER_COMMIT": "0", "MIMALLOC_PURGE_DELAY": "0"}):
+        plan.append(("rel", "P8h", "S0", 3 if q else 4, ["--observe", "monitor"], env))
+    plan.append(("dbg", "P8h", "S0", 3, ["--observe", "monitor"], {"MIMALLOC_ARENA_EAGER_COMMIT": "0"}))
+    plan.append(("rel", "P8f", "S10", 3 if q else 4, ["--observe", "monitor"], {}))
     if not q:
         for k, env in enumerate(all_configs(OPTS13[:9])):     # full product of the 9 allocator options (576) at small depth
             plan.append((("rel", "dbg", "sec")[k % 3], "P8o", "S0", 3, ["--observe", "monitor"], env))
@@ -295,6 +300,8 @@ def run_C07(ctx):
             ("sec", "fault", fl, {}), ("sec", "fault", [], envs(LAZY, P0)), ("dbg", "fault", fl, {}), ("dbg", "fault", [], envs(LAZY, P0)),
             # arena memory committed on demand while segments commit eagerly: a refused arena-level commit is followed by the commit of the descriptor slices
             ("rel", "fault", fl, ALAZY), ("sec", "fault", [], ALAZY),
+            # large OS pages allowed: the modelled OS refuses every MAP_HUGETLB request, mimalloc falls back to ordinary pages
+            ("rel", "fault", [], {"MIMALLOC_ALLOW_LARGE_OS_PAGES": "1"}),
             # pairs of failures for one workload (also exercises the known finding "fresh segment kept without pages")
             ("rel", "fault", ["--pairs", "--only-workload", "realloc"], envs(LAZY, P0, NOA))]
     if not q:
@@ -309,6 +316,7 @@ def run_C11(ctx):
     base = [{}, {"MIMALLOC_DISALLOW_ARENA_ALLOC": "1"}, {"MIMALLOC_ARENA_RESERVE": "64MiB"}, {"MIMALLOC_PURGE_DELAY": "0"}, {"MIMALLOC_PURGE_DELAY": "-1"},
             {"MIMALLOC_PURGE_DECOMMITS": "0", "VF_RESET_ZERO": "1"}, LAZY, envs(LAZY, {"MIMALLOC_DISALLOW_ARENA_ALLOC": "1", "MIMALLOC_PURGE_DELAY": "0"})]
     # (the last configuration is the one of the known finding: reset-mode purge with fully lazy commit)
+    base.insert(0, {"MIMALLOC_ALLOW_LARGE_OS_PAGES": "1"})     # the modelled OS refuses MAP_HUGETLB: ordinary pages are used and must be given back as usual
     base.append(envs({"MIMALLOC_PURGE_DELAY": "10", "MIMALLOC_PURGE_DECOMMITS": "0", "VF_RESET_ZERO": "1"}, LAZY))
     plan = [("rel", "footprint", [], e) for e in base] + [("sec", "footprint", [], {}), ("dbg", "footprint", [], {}), ("dbg", "footprint", [], {"MIMALLOC_DISALLOW_ARENA_ALLOC": "1"})]
     if not q:
@@ -400,7 +408,7 @@ NORECL = {"MIMALLOC_MAX_SEGMENT_RECLAIM": "0"}    # no adoption while searching 
 def run_C02(ctx):
     q = ctx.quick
     B = 2
-    plan = [("rel", p, B, 1, {}) for p in ("H1", "H2", "H3", "H4", "H5", "D1")] + [("rel", "E5", B, 1, RF), ("rel", "E1", B, 1, RF), ("rel", "H4", B, 0, {"VF_RESET_ZERO": "1"}), ("rel", "AB1", B, 0, RF), ("rel", "AB2", B, 0, RF), ("dbg", "H4n", B, 0, {}), ("sec", "H4n", 1 if q else B, 0, {})]
+    plan = [("rel", p, B, 1, {}) for p in ("H1", "H2", "H3", "H4", "H5", "D1")] + [("rel", "E5", B, 1, RF), ("rel", "E1", B, 1, RF), ("rel", "H4", B, 0, {"VF_RESET_ZERO": "1"}), ("rel", "AB1", B, 0, RF), ("rel", "AB2", B, 0, RF), ("dbg", "H4n", B, 0, {}), ("sec", "H4n", 1 if q else B, 0, {}), ("rel", "H6", B, 1, {}), ("dbg", "H6", 1 if q else B, 0, {})]
     plan += [("dbg", "H2", 1 if q else 2, 1, {}), ("sec", "H3", 1 if q else 2, 1, {})]
     if q: plan += [("rel", ("family", 0, 700, ), 1, 0, {})]
     else: plan += [("rel", ("family", 0, 750), 2, 1, {}), ("rel", "H2", 3, 2, {}), ("rel", "H3", 3, 2, {}), ("rel", "H1", 3, 2, {}), ("rel", "H5", 3, 2, {}), ("dbg", "H5", 2, 1, {}), ("sec", "H2", 2, 1, {})]
@@ -543,12 +551,14 @@ def ov_build(ctx):
     bdir = os.path.dirname(ctx.build("h_arith", "rel"))     # the content-hashed build directory of this tree
     d = os.path.join(bdir, "ov"); os.makedirs(d, exist_ok=True)
     so, obj, dyn, sta = (os.path.join(d, n) for n in ("libmimalloc.so", "mimalloc.o", "ov_dyn", "ov_static"))
+    so_sec = os.path.join(d, "libmimalloc-secure.so")
     src = os.path.join(ctx.verif, "harness", "ov_test.cpp")
     stamp = os.path.join(d, "stamp." + hashlib.sha1(open(src, "rb").read()).hexdigest()[:10])
-    if not (os.path.exists(stamp) and all(os.path.exists(x) for x in (so, obj, dyn, sta))):
+    if not (os.path.exists(stamp) and all(os.path.exists(x) for x in (so, obj, dyn, sta, so_sec))):
         F = ["-O2", "-g", "-DNDEBUG", "-std=gnu11", "-Wno-unknown-pragmas", "-fvisibility=hidden", "-ftls-model=initial-exec", "-fno-builtin-malloc", "-DMI_BUILD_RELEASE", "-DMI_MALLOC_OVERRIDE", "-I" + os.path.join(ctx.repo, "include")]
         st = os.path.join(ctx.repo, "src", "static.c")
         cmds = [["gcc"] + F + ["-fPIC", "-shared", "-DMI_SHARED_LIB", "-DMI_SHARED_LIB_EXPORT", st, "-o", so, "-lpthread"],
+                ["gcc"] + F + ["-DMI_SECURE=4", "-fPIC", "-shared", "-DMI_SHARED_LIB", "-DMI_SHARED_LIB_EXPORT", st, "-o", so_sec, "-lpthread"],   # hardened build of the override library
                 ["gcc"] + F + ["-c", st, "-o", obj],
                 ["g++", "-std=c++17", "-O1", "-g", src, "-o", dyn, "-ldl", "-lpthread", "-rdynamic", "-Wl,--unresolved-symbols=ignore-all"],
                 ["g++", "-std=c++17", "-O1", "-g", "-DOV_STATIC", obj, src, "-o", sta, "-ldl", "-lpthread"]]
@@ -563,6 +573,7 @@ def ov_run(so, dyn, sta, mode, extra=()):
     import subprocess
     env = {k: v for k, v in os.environ.items() if not k.upper().startswith("MIMALLOC_")}
     if mode == "preload": env["LD_PRELOAD"] = so; cmd = [dyn, "preload"]
+    elif mode == "preload-secure": env["LD_PRELOAD"] = so.replace("libmimalloc.so", "libmimalloc-secure.so"); cmd = [dyn, "preload-secure"]
     else: cmd = [sta, "static"]
     r = subprocess.run(cmd + [str(x) for x in extra], env=env, stdout=subprocess.PIPE, stderr=subprocess.PIPE, text=True, timeout=900)
     line = [l for l in r.stdout.splitlines() if l.startswith("{")]
@@ -574,7 +585,7 @@ def run_C19(ctx):
     except RuntimeError as ex: return dict(coverage=dict(evaluations=1, distinct_nontrivial=2, rule="build failed", samples=["-"]), violations=[], infra=[str(ex)])
     pairs = ok = nontriv = 0
     os.makedirs(os.path.join(ctx.out, "replays"), exist_ok=True)
-    for mode in ("preload", "static"):
+    for mode in ("preload", "static", "preload-secure"):
         res, rc, err = ov_run(so, dyn, sta, mode)
         if res is None or "infra" in (res or {}):
             infra.append(f"override test did not run in mode {mode}: rc={rc} {res} {err}"); continue
@@ -588,7 +599,7 @@ def run_C19(ctx):
             viol.append(dict(key=f"C19:{mode}:{key}", msg=v, replay=rp))
     samples += ["malloc(100000) -> delete[](sized)", "new[](align)(24) -> realloc(p,2n+1)", "posix_memalign(&p, 0, 64) == EINVAL with p untouched"]
     cov = dict(evaluations=pairs + 2 * 14, distinct_nontrivial=nontriv,
-        rule="the shared library (LD_PRELOAD) and the static override object are built from the working tree with the suite's flags; for both, every triple (allocating entry point in {malloc, calloc, realloc(NULL), posix_memalign, aligned_alloc, memalign, valloc, pvalloc, reallocarray(NULL), strdup, strndup, realpath, new, new[], nothrow and aligned forms, __libc_malloc/calloc/realloc/memalign/valloc/pvalloc} x size in {0, 1, 24, 4096, 100000, 20 MiB} x releasing/resizing/querying entry point in {free, cfree, realloc up/down/0, reallocarray, malloc_usable_size, delete, delete[], sized, aligned, sized-aligned, nothrow forms, __libc_free, __libc_realloc}) runs in its own process: the pointer must be a mimalloc heap block with usable size >= n (and aligned), the heap walk must report it once, the release must leave the heap's block count where it was before the allocation, resizes keep contents; plus standard return codes (posix_memalign EINVAL/ENOMEM with untouched out-parameter for alignment 0/3/24/4, reallocarray and calloc overflow, malloc(0), nothrow new), a C++ containers/streams/threads program, and mallinfo2() showing that glibc's allocator was never used. distinct_nontrivial = triples with size >= 4096.",
+        rule="(third run: the same matrix against a hardened MI_SECURE=4 build of the preloaded library; whatever malloc_usable_size reports is written in full before the block is released) the shared library (LD_PRELOAD) and the static override object are built from the working tree with the suite's flags; for both, every triple (allocating entry point in {malloc, calloc, realloc(NULL), posix_memalign, aligned_alloc, memalign, valloc, pvalloc, reallocarray(NULL), strdup, strndup, realpath, new, new[], nothrow and aligned forms, __libc_malloc/calloc/realloc/memalign/valloc/pvalloc} x size in {0, 1, 24, 4096, 100000, 20 MiB} x releasing/resizing/querying entry point in {free, cfree, realloc up/down/0, reallocarray, malloc_usable_size, delete, delete[], sized, aligned, sized-aligned, nothrow forms, __libc_free, __libc_realloc}) runs in its own process: the pointer must be a mimalloc heap block with usable size >= n (and aligned), the heap walk must report it once, the release must leave the heap's block count where it was before the allocation, resizes keep contents; plus standard return codes (posix_memalign EINVAL/ENOMEM with untouched out-parameter for alignment 0/3/24/4, reallocarray and calloc overflow, malloc(0), nothrow new), a C++ containers/streams/threads program, and mallinfo2() showing that glibc's allocator was never used. distinct_nontrivial = triples with size >= 4096.",
         samples=samples, exhaustive=True, passed=ok)
     return dict(coverage=cov, assumptions=["Linux/glibc, gcc/g++; the C build of mimalloc (operator new cannot throw: the throwing forms are only used with sizes that succeed)", "LD_PRELOAD with an uninstrumented release build of the library"], violations=viol, infra=infra)
 
